@@ -70,6 +70,8 @@ class Profile:
     calls_in_for_list: bool = False                 # known finding F-C06-a (ra clobbered inside the for-list body subroutine)
     max_globals: int = 4
     call_heavy: bool = False                        # more nested calls and early returns (C06 / C01 call paths)
+    loopctl_heavy: bool = False                     # many break / continue / dead loops (C05 loop-label paths)
+    dead_loops: bool = True                         # `while False:` blocks (disabled code)
     named_constants: bool = True                    # module-level single-assignment constants used by name (folded by the transpiler)
     max_index_list: int = 5                         # known finding F-C01-f (jump table for 6 and more elements picks the neighbour)
     max_stmts: int = 7
@@ -470,6 +472,16 @@ class Gen:
             if c:
                 self.feat("call_stmt")
                 return [("expr", c)]
+        if self.p.loopctl_heavy and sc.in_loop and r.random() < 0.3:
+            kind = sc.loop_kind[-1]
+            if r.random() < 0.5 or not (kind == "while" or self.p.continue_in_for):
+                self.feat("break")
+                return [("ite", self.bool_expr(sc, 1), [("brk",)], [])]
+            self.feat("continue")
+            return [("ite", self.bool_expr(sc, 1), [("cont",)], [])]
+        if self.p.dead_loops and can_nest and r.random() < (0.2 if self.p.loopctl_heavy else 0.03):
+            self.feat("dead_while")
+            return [("while", ("num", 0.0), [self.write_stmt(sc)], {"spelling": r.choice(["False", "0"])})]
         if k < 0.30:
             return [self.write_stmt(sc)]
         if k < 0.50:
@@ -878,7 +890,7 @@ def pstmt(s, ind, out, fprefix=""):
             out.append(f"{I}else:")
             pblock(s[3], ind + 1, out, fprefix)
     elif t == "while":
-        c = "True" if s[1] == ("num", 1.0) else pexpr(s[1], 0, fprefix)
+        c = "True" if s[1] == ("num", 1.0) else (s[3]["spelling"] if len(s) > 3 and s[1] == ("num", 0.0) else pexpr(s[1], 0, fprefix))
         out.append(f"{I}while {c}:")
         pblock(s[2], ind + 1, out, fprefix)
     elif t == "forRange":
